@@ -1326,7 +1326,10 @@ impl ClientConductor {
     pub fn close_all_resources(&mut self, now_ms: Moment) {
         log!(trace, "close_all_resources: closing all resources");
 
-        self.is_closed.store(true, Ordering::Release);
+        // Closing is done once: repeated time-outs must not fire the close handlers again.
+        if self.is_closed.swap(true, Ordering::AcqRel) {
+            return;
+        }
 
         for pub_defn in self.publication_by_registration_id.values() {
             if let Some(maybe_publication) = &pub_defn.publication {
